@@ -43,7 +43,7 @@ func main() {
 		}
 	}
 	r := hx.NewRand(ctx.Seed)
-	nBushy, nLong := ctx.Scale(50, 1200), ctx.Scale(10, 200)
+	nBushy, nLong := ctx.Scale(120, 1500), ctx.Scale(20, 250)
 	for i := 0; i < nBushy; i++ {
 		runOne(ctx, chainsim.GenBushy(r.Fork(uint64(i)), chainsim.GenOpts{}))
 	}
